@@ -637,19 +637,28 @@ class GroupBy:
                 ),
             )
 
+        # validate the inputs as the caller gave them: the timestamp conversion below
+        # strips pandas indexes
+        to_check = list(value_list)
+        mask_is_boolean = mask is not None and (
+            pd.api.types.is_bool_dtype(mask)
+            or (
+                isinstance(mask, (pl.Series, pa.Array, pa.ChunkedArray))
+                and np.asarray(mask).dtype.kind == "b"
+            )
+        )
+        if mask_is_boolean:
+            to_check = [*to_check, mask]
+
+        common_index = _validate_input_lengths_and_indexes(to_check)
+        input_len = len(to_check[0])
+
         type_list = [None] * len(value_list)
         for i, val in enumerate(value_list):
             if series_is_timestamp(val):
                 value_list[i], type_list[i] = _convert_timestamp_to_tz_unaware(val)
             else:
                 type_list[i] = val.dtype if hasattr(val, "dtype") else val.type
-
-        to_check = value_list
-        if mask is not None and pd.api.types.is_bool_dtype(mask):
-            to_check = [*to_check, mask]
-
-        common_index = _validate_input_lengths_and_indexes(to_check)
-        input_len = len(to_check[0])
 
         if input_len != len(self):
             raise ValueError(
